@@ -842,7 +842,7 @@ class Place:
 
 def is_scalar(v):
     return isinstance(v, tuple) and len(v) > 0 and v[0] in (
-        "Var", "Lit", "Add", "Sub", "Mul", "Div", "Fma", "Neg", "Max", "Ln", "Exp", "If")
+        "Var", "Lit", "Add", "Sub", "Mul", "Div", "Fma", "Neg", "Max", "Min", "Abs", "Ln", "Exp", "If")
 
 
 def is_bool(v):
@@ -1409,6 +1409,10 @@ class Interp:
                 return ("Div", lit(1.0), recv)
             if name == "max" and len(args) == 1:
                 return ("Max", recv, args[0])
+            if name == "min" and len(args) == 1:
+                return ("Min", recv, args[0])
+            if name == "abs" and not args:
+                return ("Abs", recv)
             if name == "ln" and not args:
                 return ("Ln", recv)
             if name == "exp" and not args:
@@ -1710,11 +1714,11 @@ def emit_expr(e):
         return "(Var %d)" % e[1]
     if k == "Lit":
         return "(Lit %d)" % e[1]
-    if k in ("Add", "Sub", "Mul", "Div", "Max"):
+    if k in ("Add", "Sub", "Mul", "Div", "Max", "Min"):
         return "(%s %s %s)" % (k, emit_expr(e[1]), emit_expr(e[2]))
     if k == "Fma":
         return "(Fma %s %s %s)" % (emit_expr(e[1]), emit_expr(e[2]), emit_expr(e[3]))
-    if k in ("Neg", "Ln", "Exp"):
+    if k in ("Neg", "Ln", "Exp", "Abs"):
         return "(%s %s)" % (k, emit_expr(e[1]))
     if k == "If":
         return "(If %s %s %s)" % (emit_bexpr(e[1]), emit_expr(e[2]), emit_expr(e[3]))
